@@ -1,5 +1,7 @@
 import HpoProofs.BinaryLoad
 import HpoProofs.LoadRefine
+import HpoProofs.LoadRun
+import HpoProofs.ReachableSub
 /-!
 # C07 — binary serialisation round-trips
 
@@ -31,8 +33,11 @@ What is proved in full:
   `decodeBytes (encodeOnto o) = .ok (truncOnto o)` (`C07_roundtrip`), hence never rejected
   (`C07_never_rejected`), and with the records of every section in any order all lookups are the
   same (`C07_record_order`).
-What is `_partial`: `Reachable` is proved for the Builder route and for reloaded ontologies only
-(`C07_reachable_constructors_partial`).
+* the class: every public constructor lands in `Reachable` under its well-formedness hypotheses
+  (`C07_reachable_constructors`): the Builder (`C07_reachable_builder`), `from_bytes` of any
+  well-formed v1 / v2 / v3 file (`C07_reachable_from_bytes`), the two text loaders
+  (`C07_reachable_text`), `sub_ontology` followed by the default groups
+  (`C07_reachable_sub_ontology`), and the round trip itself (`C07_reachable_roundtrip`).
 -/
 namespace Hpo.C07
 open Hpo Hpo.Binary Hpo.Proto
@@ -127,20 +132,99 @@ theorem C07_reachable_builder (tops : List BOp) (o oc : Onto) (hrun : runB tops 
 theorem C07_reachable_roundtrip (o : Onto) (h : Reachable o) : Reachable (truncOnto o) :=
   reachable_truncOnto o h
 
-/-- Full statement (NOT proved): every ontology returned by a public constructor followed by
-`build_with_defaults` — the Builder, `from_bytes` of ANY valid v1–v3 file, the two text loaders,
-`sub_ontology` — is `Reachable`.  Proved: the Builder route and closure under the round trip (so also
-a round trip of a round trip).  Missing: the other constructors end in the same builder steps
-(`Onto.loadFacts`, `C09_file_in_order`, C14) but on records that are not known to come from a
-well-formed ontology (a foreign file may list a parent that is no term, or the same record id
-twice — then `Reachable` is in fact false); the correspondence check runs the round trip on
-ontologies from all of them. -/
-theorem C07_reachable_constructors_partial :
+/-- **`from_bytes` of ANY well-formed file** (format version 1, 2 or 3; `FileOK`: encodable;
+`WFRecords (projFacts fv f)`, `HpoProofs/LoadRun.lean`: as far as the file carries them, term records
+with the same id agree, the term and the listed parents of every parent record are terms of the file,
+no is_a cycle, record ids distinct inside each of the gene / OMIM / ORPHA sections, every term listed
+by a record is a term of the file, at most 65 535 records per section, `HP:0000001` and `HP:0000118`
+are terms — no ontology is assumed to have written the file) succeeds, and the loaded ontology is
+`Reachable`: the load is literally a checked Builder-API run over the records
+(`C08_file_is_builder_run`).  Without these hypotheses `Reachable` is false for files that do load
+(a repeated record id: `C08_duplicate_record_id_counterexample`; a parent id that is no term). -/
+theorem C07_reachable_from_bytes (fv : Nat) (f : RawFacts) (h : FileOK fv f)
+    (W : WFRecords (projFacts fv f)) :
+    ∃ o, decodeBytes (encodeRaw fv f) = .ok o ∧ Reachable o := by
+  have hsmall : ∀ t ∈ (projFacts fv f).terms, t.id < maxId := by
+    intro t ht
+    obtain ⟨t0, ht0, rfl⟩ := List.mem_map.1 ht
+    rw [projTerm_id]; exact (h.facts.terms t0 ht0).1
+  obtain ⟨a, oc, r, d, B, hl⟩ := loadFacts_ok (projFacts fv f) (bareRecs_projFacts fv f) hsmall W
+  have hb := decodeBytes_enc_tail fv f h []
+  simp only [List.append_nil, finish, List.isEmpty_nil, ↓reduceIte, Res.bind] at hb
+  exact ⟨_, (hb.trans (loadFacts_projFacts fv f)).trans hl, Text.reachable_setV B.reachable _⟩
+
+/-- … in the form "whatever `from_bytes` returns for a well-formed file is `Reachable`" -/
+theorem C07_reachable_from_bytes_ok (fv : Nat) (f : RawFacts) (h : FileOK fv f)
+    (W : WFRecords (projFacts fv f)) (o : Onto) (hl : decodeBytes (encodeRaw fv f) = .ok o) :
+    Reachable o := by
+  obtain ⟨o', hl', hr⟩ := C07_reachable_from_bytes fv f h W
+  rw [hl] at hl'; cases hl'; exact hr
+
+/-- **The two text loaders** (`from_standard`, `from_standard_transitive`): for every rendering of
+the three JAX files (`Rendering.Ok`: the lexical side conditions of C09) of well-formed facts
+(`WFfacts`, `HpoProofs/TextRefine.lean`: term ids below 10^7, every `is_a` target and every annotated
+term a `[Term]` stanza, no is_a cycle, at most 65 535 distinct genes / OMIM / ORPHA diseases, stanzas
+for `HP:0000001` and `HP:0000118`) the load succeeds and the loaded ontology is `Reachable` (the load
+is a Builder run, `C09_file_is_builder_run`; `C09_file_builder` adds the round trip). -/
+theorem C07_reachable_text (tr : Bool) (R : Text.Rendering) (h : R.Ok)
+    (W : Text.WFfacts R.terms R.grows R.drows) :
+    ∃ o, Text.loadJax tr R.obo (R.gene tr) R.hpoa = .ok o ∧ Reachable o := by
+  obtain ⟨a, oc, r, d, B, hl⟩ :=
+    Text.buildFromFacts_ok R.terms R.version R.grows R.drows (Text.itemsTerms_bare _) W
+  exact ⟨_, (Text.loadJax_rendering tr R h).trans hl, Text.reachable_setV B.reachable _⟩
+
+/-- a `Reachable` ontology satisfies the hypothesis `PathWF` that the `sub_ontology` theorems (C14) put
+on the SOURCE ontology (rank = number of ancestors) -/
+theorem C07_reachable_pathWF (o : Onto) (h : Reachable o) :
+    PathWF o (fun j => (allOf o.terms j).length) := h.pathWF
+
+/-- **`sub_ontology`.** `Ontology::sub_ontology` ends in `build_minimal`: its result has EMPTY
+categories and modifier, so — like every minimal-built ontology, `C07_minimal_categories_counterexample`
+(K2) — it is not in the class by itself; the property is about ontologies built with defaults.  With
+the default groups set on it (`set_default_categories` + `set_default_modifier`, i.e. the model's
+`buildWithDefaults`, which needs `HP:0000001` and `HP:0000118` among the retained terms) the result of
+a successful `sub_ontology` call on a well-formed source (`PathWF`; every `Reachable` source is:
+`C07_reachable_pathWF`) with leaves that are terms of the source IS `Reachable` — the call is a Builder
+run (`C14_is_builder_run`). -/
+theorem C07_reachable_sub_ontology (o : Onto) (rank : Nat → Nat) (wf : PathWF o rank) (root : Term)
+    (leaves : List Term) (hl : ∀ l ∈ leaves, o.get l.id = some l) (o' d : Onto)
+    (h : o.subOntology root leaves = .ok o') (hd : o'.buildWithDefaults = .ok d) : Reachable d :=
+  reachable_subOntology wf hl h hd
+
+/-- … hence the class is closed under `sub_ontology` + default groups -/
+theorem C07_reachable_sub_ontology_closed (o : Onto) (hr : Reachable o) (root : Term)
+    (leaves : List Term) (hl : ∀ l ∈ leaves, o.get l.id = some l) (o' d : Onto)
+    (h : o.subOntology root leaves = .ok o') (hd : o'.buildWithDefaults = .ok d) : Reachable d :=
+  reachable_subOntology hr.pathWF hl h hd
+
+/-- **Every public constructor lands in `Reachable`** under its well-formedness hypotheses (formerly
+`C07_reachable_constructors_partial`, which covered (1) and (5) only):
+(1) the Builder: any `new_term` / `add_parent` history with an acyclic result, `connect_all_terms`,
+any `add_*` / `annotate_*` history, `calculate_information_content`, `build_with_defaults`
+(`set_hpo_version` changes nothing: `reachable_setV`);
+(2) `from_bytes` (`from_binary`) of any encodable, well-formed v1 / v2 / v3 file;
+(3) `from_standard` / `from_standard_transitive` on renderings of well-formed facts;
+(4) `sub_ontology` of a well-formed source, followed by the default groups;
+(5) the round trip `from_bytes(as_bytes(o))`.
+The hypotheses cannot be dropped: `from_bytes` accepts files with a repeated record id or a parent
+id that is no term and then returns a non-`Reachable` ontology; `sub_ontology` itself (and
+`build_minimal`, `Ontology::default()`) leaves categories / modifier empty, which the binary format
+does not store (K2) — both are outside the property ("built with defaults"). -/
+theorem C07_reachable_constructors :
     (∀ (tops : List BOp) (o oc : Onto) (aops : List AOp) (r d : Onto), runB tops {} = some o →
       C01.Acyclic o → o.connectAll = .ok oc → (runA aops oc).calcIc = .ok r →
       r.buildWithDefaults = .ok d → Reachable d) ∧
+    (∀ (fv : Nat) (f : RawFacts), FileOK fv f → WFRecords (projFacts fv f) →
+      ∃ o, decodeBytes (encodeRaw fv f) = .ok o ∧ Reachable o) ∧
+    (∀ (tr : Bool) (R : Text.Rendering), R.Ok → Text.WFfacts R.terms R.grows R.drows →
+      ∃ o, Text.loadJax tr R.obo (R.gene tr) R.hpoa = .ok o ∧ Reachable o) ∧
+    (∀ (o : Onto) (rank : Nat → Nat) (root : Term) (leaves : List Term) (o' d : Onto), PathWF o rank →
+      (∀ l ∈ leaves, o.get l.id = some l) → o.subOntology root leaves = .ok o' →
+      o'.buildWithDefaults = .ok d → Reachable d) ∧
     (∀ o, Reachable o → Reachable (truncOnto o)) :=
   ⟨fun tops o oc aops r d h1 h2 h3 h4 h5 => reachable_of_builder tops o oc h1 h2 h3 aops r d h4 h5,
+   C07_reachable_from_bytes, C07_reachable_text,
+   fun _ _ _ _ _ _ wf hl h hd => reachable_subOntology wf hl h hd,
    reachable_truncOnto⟩
 
 /-- The builder steps of `from_bytes` succeed on the records `as_bytes` writes: no error (both roots
@@ -360,5 +444,52 @@ example : FactsPerm (factsOf rtOnto)
       omim := (factsOf rtOnto).omim.reverse, orpha := (factsOf rtOnto).orpha.reverse } :=
   ⟨rfl, (List.reverse_perm _).symm, (List.reverse_perm _).symm, (List.reverse_perm _).symm,
    (List.reverse_perm _).symm, (List.reverse_perm _).symm⟩
+
+/-! ### non-vacuity of `C07_reachable_from_bytes` / `C07_reachable_sub_ontology` -/
+
+/-- a FOREIGN record set (nothing `as_bytes` would write: term lists unsorted and with a repeated
+entry, records and parents not in id order, a disease without terms, an obsolete replaced term) -/
+def foreign : RawFacts :=
+  { version := (2025, 1, 31)
+    terms := [{ id := 118, name := "Phenotypic abnormality".toList }, { id := 7, name := "é old".toList, obsolete := true, replacement := some 118 },
+              { id := 1, name := "All".toList }, { id := 9, name := "leaf".toList }]
+    parents := [(9, [118, 7]), (7, [118]), (118, [1])]
+    genes := [{ id := 2175, name := "FANCA".toList, hpos := [9, 118, 9] }, { id := 3, name := "G3".toList, hpos := [7] }]
+    omim := [{ id := 4294967295, name := "Fanconi anemia".toList, hpos := [9] }]
+    orpha := [{ id := 84, name := [], hpos := [] }] }
+
+set_option maxRecDepth 8000 in
+theorem C07_foreign_fileOK (fv : Nat) (hfv : fv = 1 ∨ fv = 2 ∨ fv = 3) : FileOK fv foreign := by
+  refine ⟨hfv, ⟨by decide, ?_, ?_, ?_, ?_, ?_, ?_, by decide, by decide, by decide, by decide⟩, ?_⟩
+  · simp only [foreign, TermOK]; decide
+  · simp only [foreign, ParentsOK]; decide
+  · simp only [foreign, GeneOK]; decide
+  · simp only [foreign, DiseaseOK]; decide
+  · simp only [foreign, DiseaseOK]; decide
+  · rcases hfv with rfl | rfl | rfl <;> decide
+  · intro _; decide
+
+theorem C07_foreign_wf : WFRecords foreign :=
+  { termsFun := by decide
+    parentsClosed := by unfold IsTerm; decide
+    acyclic := ⟨fun j => if j = 1 then 0 else if j = 118 then 1 else if j = 7 then 2 else 3, by decide⟩
+    recIds := by intro k; cases k <;> decide
+    recTerms := by intro k; cases k <;> (unfold IsTerm; decide)
+    fit := by intro k; cases k <;> decide
+    root := by unfold IsTerm; decide
+    phenotype := by unfold IsTerm; decide }
+
+/-- the hypotheses of `C07_reachable_from_bytes` hold together, for each of the three format versions -/
+example (fv : Nat) (hfv : fv = 1 ∨ fv = 2 ∨ fv = 3) :
+    ∃ o, decodeBytes (encodeRaw fv foreign) = .ok o ∧ Reachable o :=
+  C07_reachable_from_bytes fv foreign (C07_foreign_fileOK fv hfv) (C07_foreign_wf.proj fv)
+
+set_option maxRecDepth 100000 in
+/-- … and those of `C07_reachable_sub_ontology` on the `sub_ontology` example of C14 (all four terms
+of `modOnto` retained, both roots among them) -/
+example : ∃ d, modSub.buildWithDefaults = .ok d ∧ Reachable d := by
+  have h : modOnto.subOntology modRoot [modLeaf5, modLeaf200] = .ok modSub := by decide
+  have hd : modSub.buildWithDefaults = .ok (modSub.buildWithDefaults.toOption.getD {}) := by decide
+  exact ⟨_, hd, C07_reachable_sub_ontology modOnto modRank modOnto_wf modRoot _ (by decide) modSub _ h hd⟩
 
 end Hpo.C07
